@@ -476,7 +476,7 @@ func (r *Recorder) onApply(inc *Incarnation, sm *ModelSM, a AppliedOp) {
 		if sm.Restores > 0 || r.c.Cfg.SnapThreshold > 0 {
 			prop = "C10"
 		}
-		r.violate(prop, kind, r.tainted(inc.Node, "non-increasing", "F1", "F2"), "%s: Apply(index %d) after index %d on the same state machine instance",
+		r.violate(prop, kind, r.taintedAny("non-increasing", "F1", "F2"), "%s: Apply(index %d) after index %d on the same state machine instance",
 			inc.Name(), a.Index, sm.lastIndexSinceRestore)
 	}
 	if sm.busy > 1 {
@@ -544,9 +544,16 @@ func (r *Recorder) checkOpsArePrefix(inc *Incarnation, ops []AppliedOp, what str
 	prev := uint64(0)
 	for _, o := range ops {
 		if o.Index <= prev {
-			cause := r.tainted(inc.Node, "duplicate-or-reorder", "F1", "F2")
+			cause := r.taintedAny("duplicate-or-reorder", "F1", "F2")
 			if strings.HasPrefix(what, "installed") {
 				cause = r.taintedAny("duplicate-or-reorder", "F1", "F2")
+				// The duplicate came with the snapshot from a node that showed F1/F2: the state
+				// machine that is restored from it carries it on (and so do its own snapshots).
+				for _, t := range []string{"F1", "F2"} {
+					if r.anyTaint[t] {
+						r.setTaint(inc.Node, t)
+					}
+				}
 			}
 			r.violate("C10", "content-order", cause, "%s: %s lists index %d after %d", inc.Name(), what, o.Index, prev)
 			return
@@ -601,8 +608,9 @@ func (r *Recorder) onStatus(inc *Incarnation, st raft.Status) {
 		// InstallSnapshot; the handler then overwrites commit/applied with the snapshot label.
 		r.setTaint(n, "F2")
 	}
-	if had {
-		// C11(b)/C06(c): within an incarnation commit and applied indices never decrease.
+	if had && prev.State != raft.Shutdown {
+		// C11(b)/C06(c): within an incarnation commit and applied indices never decrease (a node
+		// that was stopped and is started again in place begins anew from its persisted state).
 		if st.CommitIndex < prev.CommitIndex {
 			r.violate("C11", "commit-regressed", r.tainted(n, "status", "F2", "F3"), "%s commit index %d -> %d", inc.Name(), prev.CommitIndex, st.CommitIndex)
 		}
